@@ -1,7 +1,7 @@
 (* C13 -- Ensemble generation yields complete member molecules up to the system mass.
    Model/SysGen.v: the loop of system.py:156-172 over an arbitrary stream of generated molecules. *)
 From Coq Require Import List ZArith QArith Bool String.
-From GBS Require Import Model.PyStr Model.Num Model.Bond Model.Select Model.Sys Model.SysGen Proofs.SysGenP.
+From GBS Require Import Model.PyStr Model.Num Model.Bond Model.Select Model.Sys Model.SysGen Proofs.SysGenP Src.SrcSysGen Proofs.SysGenSrcP.
 Import ListNotations.
 Open Scope Q_scope.
 
@@ -27,6 +27,32 @@ Print Assumptions C13_prefix_and_stop.
 Theorem C13_refuses : forall c, guard false c = false.
 Proof. intros c. reflexivity. Qed.
 Print Assumptions C13_refuses.
+
+(* tie T: the loop and the guards written over the decision expressions REGENERATED from system.py (Src/SrcSysGen.v; the statement
+   skeletons of generable / system_mass / generator / generate are checked by the translator) are the model of the theorems above *)
+Theorem C13_loop_is_source : forall stream S acc, sys_loop_src S acc stream = sys_loop S acc stream.
+Proof. exact sys_loop_is_source. Qed.
+Print Assumptions C13_loop_is_source.
+
+Theorem C13_guards_are_source : forall generable c, guard_src generable c = guard generable c.
+Proof. exact guard_is_source. Qed.
+Print Assumptions C13_guards_are_source.
+
+(* System.generable is the bookkeeping's flag and every component generable; single generation returns only a fully generated
+   molecule of a generable component of a generable system *)
+Theorem C13_generable_and_single_are_source : forall flag gs generable g full,
+  sys_generable_src flag gs = flag && forallb (fun x => x) gs /\ single_src generable g full = generable && g && full.
+Proof. intros. split; [apply sys_generable_is_source|apply single_is_source]. Qed.
+Print Assumptions C13_generable_and_single_are_source.
+
+(* the stop rule, stated of the loop built from the source's own expressions *)
+Theorem C13_source_loop_stops_at_system_mass : forall S stream acc,
+  ending (sys_loop_src S acc stream) = LStop -> S <= acc + msum (yielded (sys_loop_src S acc stream)).
+Proof.
+  intros S stream acc. rewrite sys_loop_is_source. intros H.
+  destruct (sys_loop_spec S stream acc) as (rest & _ & _ & _ & E). rewrite H in E. exact E.
+Qed.
+Print Assumptions C13_source_loop_stops_at_system_mass.
 
 Example C13_example :
   yielded (sys_loop 100 0 [{| mb_comp := 0; mb_mass := 60; mb_full := true |}; {| mb_comp := 1; mb_mass := 70; mb_full := true |};
